@@ -185,7 +185,10 @@ def _build(d):
         # for other cells / another extent (a later revision of a workbook)
         cur = [n['range'] for n in names if 'range' in n][0]
         sib = d.choice([e for e in exts if e != cur])
+    mid = [[d.choice(inputs), d.choice([4, 9, 60, 0.5])]
+           for _ in range(d.pick(3))]
     return {'sibling': sib, 'twice': d.pick(4) == 0, 'kinds': kinds,
+            'mid': mid,
             'model': model, 'focus': sorted(set(focus)), 'pre': bool(
         d.pick(2)), 'changes': changes, 'names': names, 'prehist': prehist,
         'skipfirst': d.pick(3) == 0, 'again': d.pick(2) == 0, 'raw': raw}
@@ -335,17 +338,44 @@ def judge(case):
         t = exc_tag(err)
         res.fail('compile-exception:%s:%s' % (t[1], t[2]), 'model', t)
         return res
+    rawf = sorted(case.get('raw') or {})
+    if not names and not case.get('kinds'):
+        rawf = []
+    ex1 = None
+    if case.get('twice'):
+        # "any model": the original may itself be an extract (of a wider
+        # focus: every formula cell, the NAMES only reached through the
+        # formulas that use them) whose inputs have moved on since
+        try:
+            wide = sorted(set([f for f in focus if f not in names] + rawf +
+                              list(model['order'])))
+            ex1 = xl.ModelCompiler.extract(m, focus=wide)
+            ev1 = xl.Evaluator(ex1)
+            if case['pre']:
+                for a in model['order']:
+                    if a in ex1.cells:
+                        ev1.evaluate(a)
+            for a, v in case.get('mid') or []:
+                addr = names[a]['addr'] if a in names else a
+                if addr in ex1.cells and addr in model['inputs']:
+                    ev.set_cell_value(addr, v)
+                    ev1.set_cell_value(addr, v)
+                    inputs[addr] = v
+        except Exception as err:  # noqa: BLE001
+            t = exc_tag(err)
+            res.fail('extract-exception:%s:%s:wide' % (t[1], t[2]),
+                     'extracted model', t, focus)
+            return res
+        keep = [f for f in focus if f not in names
+                or f in ex1.defined_names]
+        if keep:
+            focus = keep
+        else:
+            ex1 = None
     before = snapshot(m)
     consts_before = const_values(m)
     try:
-        rawf = sorted(case.get('raw') or {})
-        if not names and not case.get('kinds'):
-            rawf = []
-        if case.get('twice'):
-            # "any model": the original may itself be an extract (of a
-            # wider focus: every formula cell)
-            wide = sorted(set(list(focus) + rawf + list(model['order'])))
-            ex1 = xl.ModelCompiler.extract(m, focus=wide)
+        if ex1 is not None:
             ex = xl.ModelCompiler.extract(ex1, focus=list(focus) + rawf)
         else:
             ex = xl.ModelCompiler.extract(m, focus=list(focus) + rawf)
